@@ -115,9 +115,8 @@ type CSVLogConfig struct {
 // CSVLog generates CSV export of the log
 func CSVLog(logStream io.Reader, c CSVLogConfig) error {
 	r := NewCSVReporter(c.ReporterConfig)
-	defer r.Flush()
 	f := filter.GetIntervalNodeFilter(c.FilterConfig)
-	return utils.WalkNodesInStream(logStream, c.DateFormat, c.ParserConfig, f, r)
+	return utils.FlushReporter(r, utils.WalkNodesInStream(logStream, c.DateFormat, c.ParserConfig, f, r))
 }
 
 type CSVDatabaseConfig struct {
@@ -128,9 +127,8 @@ type CSVDatabaseConfig struct {
 // CSVDatabase generates CSV export of the database
 func CSVDatabase(dbStream io.Reader, cdc CSVDatabaseConfig) error {
 	r := NewCSVDatabaseReporter(cdc.ReporterConfig)
-	defer r.Flush()
 
-	return parser.ParseStreamCallback(dbStream, cdc.ParserConfig, func(n *shared.ParserNode, err error) (stop bool, cbError error) {
+	err := parser.ParseStreamCallback(dbStream, cdc.ParserConfig, func(n *shared.ParserNode, err error) (stop bool, cbError error) {
 		if err != nil {
 			return true, err
 		}
@@ -139,6 +137,10 @@ func CSVDatabase(dbStream io.Reader, cdc CSVDatabaseConfig) error {
 		}
 		return false, nil
 	})
+	if flushErr := r.Flush(); err == nil {
+		return flushErr
+	}
+	return err
 }
 
 type CSVDatabaseResolvedConfig struct {
